@@ -112,7 +112,7 @@ Proof. exact (alg_add_diagonal_correct0 e d r). Qed.
 
 (* MULTI-STEP PROGRAMS (the unbounded quantifier of the property), by induction on the program: for every program built from
    the covered operations (see ProofsProgram.covered: leaves of ANY class, +, -, elementwise *, @, * and / by a python number or 0-d tensor in either
-   order, expand, unsqueeze, permute, transpose of batch dimensions, sum over a batch dimension, .mT, add_jitter, add_diagonal
+   order, * by a tensor with the operand's matrix sizes, expand, unsqueeze, permute, transpose of batch dimensions, sum over a batch dimension, .mT, add_jitter, add_diagonal
    with a 0-d diagonal) in which no step
    hits a recorded defect cell, if the library-side evaluation (eval_alg: the objects the dispatching methods build, step
    after step) returns an object r and the same program is defined on dense tensors (eval_dense: torch semantics), then r
